@@ -334,6 +334,9 @@ var vocab = []string{":=", "=", "+=", "-=", "*=", "/=", "%=", "|=", "^=", "&=", 
 	"\u00d7", "\u201c", "\u201d", "\u00a0", "\u2192", "\u2026", "\u00e9", "\u65e5\u672c", "\u200b", "\U0001f600", "\ufeff", "\xff", "\xc3", "\u00ab", "\u2260", "\u03bb",
 	// literals that scan as one token but do not denote a value: bad escapes, surrogates, out-of-range octal and code points, empty or long characters
 	`"\400"`, `"\ud800"`, `"\q"`, `"\x"`, `"\xg1"`, `"\u12"`, `"\U00110000"`, `"\8"`, `'\400'`, `'\ud800'`, `'\q'`, `''`, `'\'`, `"\"`, `'\U00110000'`, "`", "\"a\nb\"", "\"\\", "0b2", "0o8", "1e", "1e+", "0x.p", "1_", "1__0", "9999999999999999999999", "1e999", "0.0.0", "..", "....", ":=:", `'\x'`,
+	// composite types in key, element and field positions (type tags are packed into a few bits per position)
+	"map[[]x]T", "map[[]int][]string", "[][]map[string][]int", "map[map[string]int]T", "map[[]println]T{nil: {}}", "[]T{{}}", "T{}", "{nil: {}}", "type T struct{}", "type T struct { m map[[]T]T }",
+	"map[func()]T{}", "[]func(T) map[T][]T{}", "make(map[[]T][]T)", "var v map[[]g][]i", "x.(T)", "[]interface{}{}", "[...]int{1}", "[3]int{}", "*T", "&x", "<-c", "chan T",
 	// declarations whose names the host may call afterwards
 	"var cb func()", "var h func(int) int", "type S struct { F func() }", "var s S", "var e error", "var a any", "var m map[string]func()", "cb", "h", "S", "e"}
 
@@ -545,7 +548,11 @@ func genTree(rt *rapid.T) *Case {
 				if base == "." || base == "" {
 					base = "root"
 				}
-				sb.WriteString("package " + base + "\n")
+				sb.WriteString("package " + base + rx.Pick(rt, "clausesep", "\n", "\n", "\n", ";", "; ", " "))
+				if rx.Chance(rt, "secondclause", 1, 6) {
+					// a second package keyword later in the file, with or without a name, on its own or inside an expression
+					sb.WriteString(rx.Pick(rt, "second", "package\n", "package "+base+"\n", "package other\n", "* package;", "x := package\n", "package;package;", "func package() {}\n", "var package int\n"))
+				}
 			}
 			ni := rx.Range(rt, "nimports", 0, 3)
 			for k := 0; k < ni; k++ {
